@@ -102,6 +102,11 @@ def cmpNow (s : KSt) (p : Path) (cmp : Cmp) : Json :=
 def outputMatches (s : KSt) (p : Path) (cmp : Cmp) (recorded : Json) : Bool :=
   isEqual recorded (cmpNow s p cmp)
 
+/-- leftovers physically in the way of building `path`: those below it (`_make_room`) and those at the
+    directories that have to be made (`_make_dirs`) -/
+def clearWay (shelf : FS) (path : Path) (made : List Path) : FS :=
+  shelf.filter fun x => !(Spec.properAncestor path x.1) && !(made.contains x.1)
+
 /-- the output at `p` is vouched for: it joins the virtual tree -/
 def adopt (s : KSt) (p : Path) (made : List Path) : KSt :=
   let fs' := match s.shelf.get p with
@@ -139,8 +144,11 @@ def replayOp : Op → KSt → Option KSt
       | .error _ => none
       | .ok made =>
         let sp := s.sp
-        let s1 := { s with sp := { sp with
-          fs := Spec.mkdirs sp.fs made, claimedFiles := path :: sp.claimedFiles, inProg := path :: sp.inProg } }
+        let s1 := { s with
+          -- `_apply_cached_suboperations` makes the directories of reused successful outputs only
+          shelf := if raised then s.shelf else s.shelf.filter (fun x => !(made.contains x.1))
+          sp := { sp with
+            fs := Spec.mkdirs sp.fs made, claimedFiles := path :: sp.claimedFiles, inProg := path :: sp.inProg } }
         match replayOps subs s1 with
         | none => none
         | some s2 => if raised then some (unwind s2 path made) else some (adopt s2 path made)
@@ -212,7 +220,9 @@ def run : Prog → Option Path → KSt → CallRes × KSt × List Op
       let (r, s', ops) := run (k (.error e)) t s
       (r, s', .buildFile path cmp fname args kwargs [] .null .null true true :: ops)
     | .ok (sp1, made) =>
-      let s1 := { s with sp := sp1 }
+      -- `_make_room` / `_make_dirs`: leftovers that are physically in the way of the target or of its
+      -- parent directories are moved aside, so no record can vouch for them any more
+      let s1 := { s with sp := sp1, shelf := clearWay s.shelf path made }
       match lookupFile s1 path cmp fname args kwargs made with
       | some (op, s2) =>
         let ret := match op with | .buildFile _ _ _ _ _ _ r _ _ _ => r | _ => .null
